@@ -61,9 +61,10 @@ def port(n, d, ty, default=None, noreset=False):
     return {"n": n, "dir": d, "ty": ty, "hasdefault": 0 if default is None else 1,
             "default": 0 if default is None else default, "noreset": 1 if noreset else 0}
 
-def obj(n, q, ty, default=None, noreset=False):
+def obj(n, q, ty, default=None, noreset=False, local=False):
+    """local=True: the object is constructed inside a context by a `local` statement (not declared in architecture())"""
     return {"n": n, "q": q, "ty": ty, "hasdefault": 0 if default is None else 1,
-            "default": 0 if default is None else default, "noreset": 1 if noreset else 0}
+            "default": 0 if default is None else default, "noreset": 1 if noreset else 0, "local": 1 if local else 0}
 
 def seq_ctx(name, body, clk="clk", reset=None, coroutine=False, step=None, edge="rising"):
     return {"kind": "seq", "name": name, "clk": clk, "reset": reset or {"k": "none"},
@@ -113,6 +114,7 @@ BREAK = {"k": "break"}
 CONTINUE = {"k": "continue"}
 def bind(n, e): return {"k": "bind", "n": n, "e": e}
 def comment(text): return {"k": "comment", "text": text}
+def local(n, ty, init, delayed=False): return {"k": "local", "n": n, "ty": ty, "init": init, "delayed": 1 if delayed else 0}
 def waitfor(n, allow_zero=False, via="std"):
     return {"k": "waitfor", "n": n if isinstance(n, dict) else {"k": "int", "v": n}, "allow_zero": 1 if allow_zero else 0, "via": via}
 
@@ -226,6 +228,9 @@ class Printer:
             elif k == "waitfor":
                 arg = self.expr(s["n"]) + (", allow_zero=True" if s["allow_zero"] else "")
                 out.append(f"{pad}await {'std' if s['via'] == 'std' else 'waiter'}.wait_for({arg})")
+            elif k == "local":
+                extra = ", delayed_init=True" if s["delayed"] else ""
+                out.append(f'{pad}{s["n"]} = Signal[{ty_py(s["ty"])}]({self.expr(s["init"])}, name="{s["n"]}"{extra})')
             elif k == "comment":
                 out.append(f'{pad}std.comment("{s["text"]}")')
             elif k == "bind":
@@ -269,6 +274,8 @@ class Printer:
         out.append("")
         out.append("    def architecture(self):")
         for o in ent["objs"]:
+            if o.get("local"):
+                continue
             q = "Signal" if o["q"] == "signal" else "Variable"
             args = []
             if o["hasdefault"]:
@@ -310,8 +317,10 @@ class Printer:
     def augmented(self, ss, acc=None):
         """local objects that are the target of an augmented assignment (python needs `nonlocal`)"""
         acc = set() if acc is None else acc
+        locals_ = {o["n"] for o in self.ent["objs"] if o.get("local")}
         for s in ss:
-            if s["k"] == "assign" and s.get("form", "op") == "op" and not s["t"]["path"] and s["t"]["obj"] not in self.portnames:
+            if s["k"] == "assign" and s.get("form", "op") == "op" and not s["t"]["path"] and s["t"]["obj"] not in self.portnames \
+                    and s["t"]["obj"] not in locals_:
                 acc.add(s["t"]["obj"])
             elif s["k"] == "if":
                 self.augmented(s["th"], acc)
